@@ -213,9 +213,22 @@ func cbmMonitorRound(c *Ctx, id string) {
 	}
 	// the reader closure: the one that calls couchbase.Get and isAlive
 	var rd *ssa.Function
+	cands := append([]*ssa.Function{}, unit...)
 	for _, f := range unit {
 		for _, g := range withAnon(f) {
-			if g.Parent() != nil && len(callsIn(g, alive)) > 0 {
+			// a reader written as a method and started with `go h.reader(…)`
+			allInstrs(g, func(in ssa.Instruction) {
+				if gi, ok := in.(*ssa.Go); ok {
+					if cal := gi.Common().StaticCallee(); cal != nil && cal.Pkg == mon.Pkg && cal.Parent() == nil {
+						cands = append(cands, cal)
+					}
+				}
+			})
+		}
+	}
+	for _, f := range cands {
+		for _, g := range withAnon(f) {
+			if g != mon && len(callsIn(g, alive)) > 0 {
 				rd = g
 			}
 		}
@@ -226,9 +239,20 @@ func cbmMonitorRound(c *Ctx, id string) {
 	}
 	outcomes := []string{"alive", "not-alive", "key-not-found", "kv-error", "other-error", "unparsable"}
 	args := map[string]func(st *State) AV{}
-	if len(rd.Params) > 0 {
-		if b, ok := rd.Params[0].Type().Underlying().(*types.Basic); ok && b.Info()&types.IsInteger != 0 {
-			args[rd.Params[0].Name()] = func(st *State) AV { return avInt{conc: 0} }
+	for _, p := range rd.Params {
+		name := p.Name()
+		switch pt := p.Type().Underlying().(type) {
+		case *types.Basic:
+			if pt.Info()&types.IsInteger != 0 {
+				args[name] = func(st *State) AV { return avInt{conc: 0} } // the instance's own index
+			}
+		case *types.Slice:
+			if _, isP := pt.Elem().(*types.Pointer); isP {
+				elemT := pt.Elem()
+				args[name] = func(st *State) AV {
+					return avSlice{cells: []*cell{{typ: elemT, sym: name + "[0]", have: true, val: avPtr{nil}}}}
+				}
+			}
 		}
 	}
 	for _, fv := range rd.FreeVars {
@@ -364,16 +388,21 @@ func cbmRegister(c *Ctx, id string) {
 		if !ok || call.Common().StaticCallee() == nil {
 			return "", nil
 		}
-		switch call.Common().StaticCallee().Name() {
-		case "createIndex":
+		callee := call.Common().StaticCallee()
+		switch callee.Name() {
+		case "CreatePath":
 			return "index", nil
 		case "UpdateDocument":
 			return "update", nil
 		case "CreateDocument":
 			return "create", nil
 		}
+		// the steps may live in helper methods of the membership (createIndex, an extracted write ladder)
+		if callee.Signature.Recv() != nil && recvTypeName(callee.Signature.Recv().Type()) == "cbMembership" {
+			return "", callee
+		}
 		return "", nil
-	}, 0)
+	}, 2)
 	// ("index update create" without a panic is the path-insensitive image of "create failed": the final error test panics on it)
 	want := map[string]bool{"index update create": true, "index !panic": true, "index update": true, "index update !panic": true, "index update create !panic": true, "index update create update": true, "index update create update !panic": true}
 	need := []string{"index !panic", "index update", "index update create update", "index update !panic"}
@@ -679,13 +708,52 @@ func cbmRoundInputs(c *Ctx, id string) {
 	})
 	if stored != nil {
 		so := w.Origin(stored)
-		allInstrs(reg, func(in ssa.Instruction) {
-			if call, ok := in.(*ssa.Call); ok && call.Common().StaticCallee() != nil && call.Common().StaticCallee().Name() == "createIndex" {
-				if w.Origin(call.Common().Args[len(call.Common().Args)-1]) == so {
-					okJ = true
-				}
+		// what is written to the index: the value marshalled into CreatePath's payload — in register itself, or in a
+		// helper that receives it as a parameter from register
+		marshalled := func(o string) (string, bool) {
+			const pre = "sonic.Marshal)("
+			k := strings.Index(o, pre)
+			if k < 0 || !strings.HasSuffix(o, ")#0") {
+				return "", false
 			}
-		})
+			return strings.TrimSuffix(o[k+len(pre):], ")#0"), true
+		}
+		unit := []*ssa.Function{reg}
+		for g := range w.syncCallees(reg, 2, false) {
+			if g != reg && g.Pkg == reg.Pkg && g.Signature.Recv() != nil {
+				unit = append(unit, g)
+			}
+		}
+		for _, f := range unit {
+			allInstrs(f, func(in ssa.Instruction) {
+				call, ok := in.(*ssa.Call)
+				if !ok || call.Common().StaticCallee() == nil || call.Common().StaticCallee().Name() != "CreatePath" {
+					return
+				}
+				for _, a := range call.Common().Args {
+					inner, isM := marshalled(w.Origin(a))
+					if !isM {
+						continue
+					}
+					if f == reg && inner == so {
+						okJ = true
+					}
+					if f != reg && strings.HasPrefix(inner, "param(") {
+						// the helper's parameter: what register passes for it
+						for pi, p := range f.Params {
+							if "param("+p.Name()+")" != inner {
+								continue
+							}
+							allInstrs(reg, func(in2 ssa.Instruction) {
+								if c2 := callOf(in2); c2 != nil && c2.StaticCallee() == f && pi < len(c2.Args) && w.Origin(c2.Args[pi]) == so {
+									okJ = true
+								}
+							})
+						}
+					}
+				}
+			})
+		}
 	}
 	c.Check(okJ, id, "cbm:join-time", reg.Pos(), "the join time kept for the heart-beats is the one written to the index", "the registration does not keep (clusterJoinTime ←) the join time it wrote to the index: later heart-beats carry another join time and the join order — the numbering — changes")
 }
